@@ -754,7 +754,9 @@ def parsed_sem_verilog(ck, case, c):
 
 LIBNAMES = ['GSC180', 'NANGATE', 'NANGATE_ZN', 'SAED32', 'SAED90']       # Gen.libNames: row lookup in the generated C19 tables
 LIB_HYPS = ['verilogOKB', 'libCleanB', 'wf(parsed)', 'resolveOKB', 'resolve-model-answers', 'InstCert(all library cells)',
-            's_nodes-kept', 'orderOKB(resolved)', 'forksOKB(resolved)', 'linesDrivenB(resolved)']
+            's_nodes-kept', 'orderOKB(resolved)', 'forksOKB(resolved)', 'linesDrivenB(resolved)', 'tlFitsB', 'vArityLibB']
+# a 13th character of the driver's answer is NO hypothesis: `tlExactB` (the REAL pin table sent has exactly as many entries for
+# the cell type of every library instance as its generated table row has pins)
 
 
 def library_sem(ck, case, c):
@@ -814,8 +816,23 @@ def library_sem(ck, case, c):
     flags = ans[0][4:]
     names = [] if ans[1] == 'names=~' else ans[1][6:].split(',')
     dump = ans[2][5:]
-    if len(flags) != len(LIB_HYPS):
+    if len(flags) != len(LIB_HYPS) + 1:
         ck.broken_tie('library_sem: driver answer', ans[0], inp=_slim(case)); return
+    flags, exact = flags[:-1], flags[-1]
+    # audit-2 finding 8: `tlFitsB` is evaluated on the REAL pin table `tlib.cells[kind][1]` that was sent (not on a table the
+    # harness derives from the row); a built-in library whose instances are certified against their generated rows must satisfy
+    # it, and its table must list exactly the row's pins: otherwise the tie between `TechLib` and the generated tables is broken
+    fit, arl = flags[LIB_HYPS.index('tlFitsB')], flags[LIB_HYPS.index('vArityLibB')]
+    ck.hist[f'library-sem:tlFits={fit}'] += 1
+    ck.hist[f'library-sem:tlExact={exact}'] += 1
+    ck.hist[f'library-sem:vArityLib={arl}'] += 1
+    if flags[0] == '1' and flags[LIB_HYPS.index('InstCert(all library cells)')] == '1' and (fit != '1' or exact != '1'):
+        ck.broken_tie('library_sem: pin table', f'tlFitsB={fit} tlExactB={exact}: the pin table of the real {case["tlib"]} does not '
+                      f'number the pins of a certified library instance as its generated table row lists them', inp=_slim(case)); return
+    prim_wide = any(k not in tlib.cells and 'dff' not in k.lower() and 'latch' not in k.lower() for k in kinds)
+    if arl != '1' and not prim_wide:
+        ck.broken_tie('library_sem: arity domain', 'vArityLibB=0 although every instance is a library cell or a state element',
+                      inp=_slim(case)); return
     if flags[0] == '1' and flags[4] == '1':
         real = canonical_dump(c2) + ';' + circ.dump_names(c2)
         if dump != real:
